@@ -319,14 +319,18 @@ def scenarios(ctx):
     n = 60 if ctx.quick else 600
     for i in range(n):
         g = random_graph(rnd)
+        while not any(g["kind"][x] != "const" for x in g["nodes"]):
+            g = random_graph(rnd)
         non_const = [x for x in g["nodes"] if g["kind"][x] != "const"]
         outs = rnd.sample(non_const, rnd.randint(1, len(non_const))) if rnd.random() < 0.5 else list(non_const)
         hs = [rnd.sample(PERTURBATIONS, rnd.randint(1, 3)) for _ in range(2 if ctx.quick else 4)]
-        out.append(dict(g=g, seed=rnd.randint(0, 2 ** 31 - 1), bi=rnd.choice([0, 0, 1, 2, 5, 17]), bs=rnd.choice([1, 2, 5]), outs=outs,
+        out.append(dict(g=g, seed=(rnd.randint(0, 2 ** 31 - 1) if i % 10 else 0), bi=rnd.choice([0, 0, 1, 2, 5, 17]), bs=rnd.choice([1, 2, 5]), outs=outs,
                         histories=hs, hseed=rnd.randint(0, 10 ** 6), rebuilds=2, mp=(i % (20 if ctx.quick else 15) == 0)))
     # literal parents (auto-named private constants): same checks; failures are classified against F3
     for i in range(20 if ctx.quick else 200):
         g = random_graph(rnd, literal=True)
+        while not any(g["kind"][x] != "const" for x in g["nodes"]):
+            g = random_graph(rnd, literal=True)
         non_const = [x for x in g["nodes"] if g["kind"][x] != "const"]
         out.append(dict(g=g, seed=rnd.randint(0, 2 ** 31 - 1), bi=rnd.choice([0, 1, 4]), bs=2, outs=list(non_const),
                         histories=[rnd.sample(PERTURBATIONS, 2)], hseed=rnd.randint(0, 10 ** 6), rebuilds=3, literal=True))
@@ -335,7 +339,7 @@ def scenarios(ctx):
         kind = "rejection" if i % 2 == 0 else "smc"
         obj = rnd.choice([dict(n_sim=12), dict(quantile=0.5), dict(threshold=1.5)]) if kind == "rejection" else \
             rnd.choice([dict(thresholds=[2.0, 1.0]), dict(quantiles=[0.5, 0.5])])
-        out.append(dict(kind=kind, seed=rnd.randint(0, 2 ** 31 - 1), bs=rnd.choice([1, 3]), n=rnd.choice([2, 4]), objective=obj,
+        out.append(dict(kind=kind, seed=(rnd.randint(0, 2 ** 31 - 1) if i > 1 else 0), bs=rnd.choice([1, 3]), n=rnd.choice([2, 4]), objective=obj,
                         histories=[rnd.sample(PERTURBATIONS, 2) for _k in range(2)], hseed=rnd.randint(0, 10 ** 6)))
     return out
 
